@@ -756,9 +756,32 @@ def run(ctx, res):
         o = oracle_relay(c, impl)
         if o:
             res.fail(c, o[0], o[1])
+    run_unitnames(ctx, res, ctx.n(60, 600))
+
+
+def run_unitnames(ctx, res, n):
+    """units whose short notations coincide, several links in one process (engines/unitnames.py)"""
+    import logging
+    from . import unitnames
+    prev = logging.root.manager.disable
+    logging.disable(logging.CRITICAL)
+    try:
+        for _ in range(n):
+            c = unitnames.gen(ctx.rng)
+            res.case(c, True)
+            res.count("part", "unit-names")
+            o = unitnames.oracle(c, unitnames.run(c))
+            if o:
+                res.fail(c, o[0], o[1])
+                return True
+    finally:
+        logging.disable(prev)
+    return False
 
 
 def search(ctx, res, divergences, broken):
+    if run_unitnames(ctx, res, 150):
+        return
     cases = [d["case"] for d in divergences if d.get("case")] + corpus() + [gen_case(ctx.rng) for _ in range(ctx.n(4000, 40000))]
     for c in cases:
         impl = run_impl(c)
@@ -783,6 +806,8 @@ def shrink(ctx, f):
     import copy
 
     case = f["case"]
+    if case.get("part") == "unitnames":
+        return f
     if case.get("relay"):
         return f
 
@@ -825,6 +850,10 @@ def shrink(ctx, f):
 
 def replay(ctx, rp):
     case = rp.get("input") or (rp.get("diverging_case") or {}).get("case")
+    if case.get("part") == "unitnames":
+        from . import unitnames
+        o = unitnames.oracle(case, unitnames.run(case))
+        return {"fails": bool(o), "oracle": o}
     if case.get("relay"):
         impl = run_relay(case)
         o = oracle_relay(case, impl)
